@@ -5,9 +5,141 @@ use vek::mat::repr_c::row_major as rm;
 use vek::quaternion::repr_c::Quaternion;
 use vek::vec::repr_c::{Vec2, Vec3, Vec4};
 use vkit::gens;
+use vkit::regimes;
 use vkit::refmath as rf;
 use vkit::vk::{self, MatN};
 use vkit::*;
+
+// ---------------------------------------------------------------------------------------------------------
+// Regimes (floats): exact power-of-two axis lengths / operand lengths, small angles, angles many turns from
+// zero. Nothing here is used by the `Rat` instantiations.
+// ---------------------------------------------------------------------------------------------------------
+
+fn fcast<S: Dom>(x: f64) -> S {
+    <S as num_traits::NumCast>::from(x).unwrap()
+}
+
+/// Exactly 2^k in a float domain (k inside the normal range of the domain).
+fn p2<S: Dom>(k: i32) -> S {
+    fcast((2.0f64).powi(k))
+}
+
+/// Exponent limits of a float domain.
+/// * `mant`: explicit mantissa bits (eps = 2^-mant);
+/// * `axis_k`: axis lengths 2^-axis_k .. 2^axis_k times a direction of length in [0.01, 150] keep the SQUARED
+///   length (what any sqrt(x^2+y^2+z^2) normalisation forms) and every non-zero squared component inside the
+///   normal range;
+/// * `small_exp`: smallest angle 2^-small_exp; `vec_k`: rotated vectors / matrices are scaled by up to
+///   2^+-vec_k; sin(angle) * length stays normal (2^-(small_exp+vec_k+2) > MIN_POSITIVE);
+/// * `turns_exp`: largest angle ~2^turns_exp rad.
+struct FLim {
+    mant: i32,
+    axis_k: i32,
+    vec_k: i32,
+    small_exp: i32,
+    turns_exp: i32,
+}
+fn flim<S: Dom>() -> FLim {
+    if S::NAME == "f32" {
+        FLim { mant: 23, axis_k: 48, vec_k: 60, small_exp: 40, turns_exp: 30 }
+    } else {
+        FLim { mant: 52, axis_k: 480, vec_k: 400, small_exp: 200, turns_exp: 60 }
+    }
+}
+
+/// Exponent of the exact power of two an axis direction is multiplied with, and its label. Strata: 1, the
+/// historic 2^-10..2^10, length ~ sqrt(eps) (squared length ~ eps), length ~ eps, far below eps, ~ 1/sqrt(eps),
+/// ~ 1/eps, far above 1/eps, next to the squared-length range limit.
+fn axis_exp<S: Dom>(t: &mut Tape) -> (i32, &'static str) {
+    let l = flim::<S>();
+    let m = l.mant as i64;
+    let neg = t.bool();
+    let (k, lab): (i64, (&'static str, &'static str)) = match t.below(8) {
+        0 => (0, ("axis x 1", "axis x 1")),
+        1 | 2 => (t.int(1, 10), ("axis x 2^-10..2^-1", "axis x 2^1..2^10")),
+        3 => (m / 2 + t.int(-3, 3), ("axis length ~ sqrt(eps)", "axis length ~ 1/sqrt(eps)")),
+        4 => (m + t.int(-3, 3), ("axis length ~ eps", "axis length ~ 1/eps")),
+        5 | 6 => (t.int(m + 4, l.axis_k as i64), ("axis length << eps", "axis length >> 1/eps")),
+        _ => (l.axis_k as i64 - t.int(0, 4), ("axis length at the lower limit", "axis length at the upper limit")),
+    };
+    if neg {
+        (-(k as i32), lab.0)
+    } else {
+        (k as i32, lab.1)
+    }
+}
+
+/// Exponent of the exact power of two the rotated operand (vector, matrix) is multiplied with.
+fn operand_exp<S: Dom>(t: &mut Tape) -> i32 {
+    let kmax = flim::<S>().vec_k as i64;
+    let k = match t.below(4) {
+        0 => 0,
+        1 => t.int(1, 12),
+        2 => t.int(12, kmax / 2),
+        _ => t.int(kmax / 2, kmax),
+    } as i32;
+    if t.bool() {
+        -k
+    } else {
+        k
+    }
+}
+
+/// A float angle from {zero, ordinary, small, next to a multiple of pi/2, many turns}, with its label.
+fn regime_angle<S: Dom>(t: &mut Tape) -> (S, &'static str) {
+    let l = flim::<S>();
+    if t.chance(8) {
+        return (if t.bool() { -S::zero() } else { S::zero() }, "zero angle (+-0.0)");
+    }
+    let (x, lab) = regimes::angle_regime(t, l.small_exp, l.turns_exp);
+    (fcast(x), lab)
+}
+
+/// The angle of the algebraic checks: `Rat` a registered angle; floats the historic (-2pi, 2pi) generator in half
+/// of the cases and a regime angle otherwise. sin/cos are always taken of the returned value itself.
+fn gen_angle<S: Dom>(t: &mut Tape, cx: &mut Cx) -> S {
+    if S::EXACT || !t.bool() {
+        return S::angle(t);
+    }
+    let (a, lab) = regime_angle::<S>(t);
+    cx.label(lab);
+    a
+}
+
+/// Two angles and their sum. Floats: when a regime angle is involved both angles are rounded to a common grid
+/// (a power of two) on which the float sum a+b is EXACT, so R(a) R(b) = R(a+b) is an identity between the three
+/// float arguments and no rounding of the sum enters the comparison.
+fn gen_angle_pair<S: Dom>(t: &mut Tape, cx: &mut Cx) -> Option<(S, S, S)> {
+    if S::EXACT || !t.bool() {
+        let a = S::angle(t);
+        let b = S::angle(t);
+        return S::angle_sum(a, b).map(|ab| (a, b, ab));
+    }
+    let (a, la) = regime_angle::<S>(t);
+    let (b, lb) = if t.bool() { regime_angle::<S>(t) } else { (S::angle(t), "ordinary angle") };
+    cx.label(la);
+    cx.label(lb);
+    let (a, b) = if t.bool() { (a, b) } else { (b, a) };
+    let (x, y) = (a.f(), b.f());
+    let big = x.abs().max(y.abs());
+    if big == 0.0 {
+        return Some((a, b, a + b));
+    }
+    // grid = ulp of the binade above the larger angle: multiples n*g with |n| < 2^mant add exactly
+    let e = big.log2().floor() as i32 + 2 - flim::<S>().mant;
+    let g = (2.0f64).powi(e);
+    let (x, y) = ((x / g).round() * g, (y / g).round() * g);
+    let (a, b): (S, S) = (fcast(x), fcast(y));
+    let ab = a + b;
+    // exactness is a property of the generator, not of vek: verify it (f32: in f64; f64: error-free two-sum)
+    let bb = ab - a;
+    let err = (a - (ab - bb)) + (b - bb);
+    if a.f() != x || b.f() != y || !err.is_zero() {
+        return None;
+    }
+    cx.label("exact float angle sum on a common grid");
+    Some((a, b, ab))
+}
 
 /// A non-zero axis together with its exact unit direction. `Rat`: Pythagorean vector times a rational
 /// factor of either sign; floats: additionally arbitrary vectors (unit direction computed in f64).
@@ -20,7 +152,12 @@ fn gen_axis<S: Dom>(t: &mut Tape, cx: &mut Cx) -> ([S; 3], [S; 3]) {
         if neg {
             cx.label("negative-axis-scale");
         }
-        let lam = if neg { S::q(-ln, ld) } else { S::q(ln, ld) };
+        let mut lam = if neg { S::q(-ln, ld) } else { S::q(ln, ld) };
+        if !S::EXACT {
+            let (ka, l) = axis_exp::<S>(t);
+            cx.label(l);
+            lam = lam * p2::<S>(ka);
+        }
         let axis = [S::i(v[0]) * lam, S::i(v[1]) * lam, S::i(v[2]) * lam];
         let sg = if neg { -1 } else { 1 };
         let unit = [S::q(sg * v[0], len), S::q(sg * v[1], len), S::q(sg * v[2], len)];
@@ -29,16 +166,20 @@ fn gen_axis<S: Dom>(t: &mut Tape, cx: &mut Cx) -> ([S; 3], [S; 3]) {
         }
         (axis, unit)
     } else {
-        let mag = t.pick(&[1.0f64, 1e-3, 1e3, 0.37, 12.5]);
         let mut v = [t.range_f64(-1.0, 1.0), t.range_f64(-1.0, 1.0), t.range_f64(-1.0, 1.0)];
         if v.iter().map(|x| x * x).sum::<f64>() < 1e-4 {
             v = [0.3, -0.5, 0.8];
         }
+        // the direction is the S-rounded vector; its length is then changed by an exact power of two
+        let vs: [S; 3] = [fcast(v[0]), fcast(v[1]), fcast(v[2])];
+        let v = [vs[0].f(), vs[1].f(), vs[2].f()];
         let n = v.iter().map(|x| x * x).sum::<f64>().sqrt();
         let unit = [v[0] / n, v[1] / n, v[2] / n];
         cx.label("non-unit-axis");
-        let f = |x: f64| <S as num_traits::NumCast>::from(x).unwrap();
-        ([f(v[0] * mag), f(v[1] * mag), f(v[2] * mag)], [f(unit[0]), f(unit[1]), f(unit[2])])
+        let (ka, l) = axis_exp::<S>(t);
+        cx.label(l);
+        let p = p2::<S>(ka);
+        ([vs[0] * p, vs[1] * p, vs[2] * p], [fcast(unit[0]), fcast(unit[1]), fcast(unit[2])])
     }
 }
 
@@ -77,7 +218,7 @@ macro_rules! inplace2 {
 macro_rules! rot_case {
     ($fname:ident, $l:ident, $lname:expr) => {
         fn $fname<S: Dom>(t: &mut Tape, cx: &mut Cx) -> CaseResult {
-            let theta = S::angle(t);
+            let theta = gen_angle::<S>(t, cx);
             let (s, c) = (theta.sin(), theta.cos());
             let (axis, k) = gen_axis::<S>(t, cx);
             let v: [S; 3] = vk::gen_vec(t, 9);
@@ -191,11 +332,373 @@ macro_rules! rot_case {
 rot_case!(rot_rows, rm, "row-major");
 rot_case!(rot_cols, cm, "col-major");
 
+// ---------------------------------------------------------------------------------------------------------
+// Float regime check: every builder against a reference evaluated in f64 from the SAME float arguments.
+// ---------------------------------------------------------------------------------------------------------
+
+type M3 = [[f64; 3]; 3];
+
+/// |got - want| <= tol (absolute; the caller derives `tol` from the magnitudes involved).
+fn near(cx: &mut Cx, got: f64, want: f64, tol: f64) -> bool {
+    cx.count();
+    if got == want {
+        return true;
+    }
+    let d = (got - want).abs();
+    if !d.is_finite() {
+        return false;
+    }
+    cx.note_err(d / tol);
+    d <= tol
+}
+fn near_mat<const N: usize>(cx: &mut Cx, got: &[[f64; N]; N], want: &[[f64; N]; N], tol: f64) -> Result<(), String> {
+    for i in 0..N {
+        for j in 0..N {
+            if !near(cx, got[i][j], want[i][j], tol) {
+                return Err(format!("element ({},{}): got {:e}, want {:e}, tolerance {:e}\n got  {:?}\n want {:?}", i, j, got[i][j], want[i][j], tol, got, want));
+            }
+        }
+    }
+    Ok(())
+}
+fn near_vec<const N: usize>(cx: &mut Cx, got: &[f64; N], want: &[f64; N], tol: f64) -> Result<(), String> {
+    for i in 0..N {
+        if !near(cx, got[i], want[i], tol) {
+            return Err(format!("element {}: got {:e}, want {:e}, tolerance {:e} (got {:?}, want {:?})", i, got[i], want[i], tol, got, want));
+        }
+    }
+    Ok(())
+}
+macro_rules! want_ok {
+    ($r:expr, $($arg:tt)*) => {
+        if let Err(e) = $r {
+            return Err(Fail::Violation(format!("{}: {}", format!($($arg)*), e)));
+        }
+    };
+}
+fn m64<S: Dom, const N: usize>(m: &[[S; N]; N]) -> [[f64; N]; N] {
+    let mut r = [[0.0; N]; N];
+    for i in 0..N {
+        for j in 0..N {
+            r[i][j] = m[i][j].f();
+        }
+    }
+    r
+}
+fn v64<S: Dom, const N: usize>(v: &[S; N]) -> [f64; N] {
+    let mut r = [0.0; N];
+    for i in 0..N {
+        r[i] = v[i].f();
+    }
+    r
+}
+/// The rotation vector part of a 3x3 matrix: ((R - R^T)/2)^vee = sin(angle) * unit axis for a rotation. The
+/// symmetric part (1-cos) k k^T, which carries an absolute rounding error of ~eps, cancels exactly, so this is
+/// known to a tolerance relative to |sin| even when the angle is tiny.
+fn skew_part(r: &M3) -> [f64; 3] {
+    [(r[2][1] - r[1][2]) / 2.0, (r[0][2] - r[2][0]) / 2.0, (r[1][0] - r[0][1]) / 2.0]
+}
+/// Axis-angle matrix c I + s [k]x + (1-c) k k^T in f64.
+fn rodrigues_mat(k: &[f64; 3], s: f64, c: f64, oc: f64) -> M3 {
+    let kx = [[0.0, -k[2], k[1]], [k[2], 0.0, -k[0]], [-k[1], k[0], 0.0]];
+    let mut r = [[0.0; 3]; 3];
+    for i in 0..3 {
+        for j in 0..3 {
+            r[i][j] = (if i == j { c } else { 0.0 }) + s * kx[i][j] + oc * k[i] * k[j];
+        }
+    }
+    r
+}
+/// Rotation matrix of a (not necessarily unit) quaternion (x, y, z, w), in f64.
+fn quat_mat(q: &[f64; 4]) -> M3 {
+    let (x, y, z, w) = (q[0], q[1], q[2], q[3]);
+    let t = 2.0 / (x * x + y * y + z * z + w * w);
+    [
+        [1.0 - t * (y * y + z * z), t * (x * y - w * z), t * (x * z + w * y)],
+        [t * (x * y + w * z), 1.0 - t * (x * x + z * z), t * (y * z - w * x)],
+        [t * (x * z - w * y), t * (y * z + w * x), 1.0 - t * (x * x + y * y)],
+    ]
+}
+fn embed64(r: &M3) -> [[f64; 4]; 4] {
+    let mut m = [[0.0; 4]; 4];
+    for i in 0..3 {
+        for j in 0..3 {
+            m[i][j] = r[i][j];
+        }
+    }
+    m[3][3] = 1.0;
+    m
+}
+
+/// Axis direction for the regime check: S-rounded direction of length in [0.01, 2^7.1], and its unit vector in f64.
+fn regime_direction<S: Dom>(t: &mut Tape, cx: &mut Cx) -> ([S; 3], [f64; 3]) {
+    let m = flim::<S>().mant as i64;
+    let d: [f64; 3] = match t.below(6) {
+        0 => {
+            let (v, _) = gens::pythagorean3(t);
+            cx.label("direction: integer vector");
+            [v[0] as f64, v[1] as f64, v[2] as f64]
+        }
+        1 => {
+            // coordinate axis of either sign (non-unit once scaled)
+            let i = t.below(3);
+            let mut v = [0.0; 3];
+            v[i] = if t.bool() { -1.0 } else { 1.0 };
+            cx.label("direction: +- coordinate axis");
+            v
+        }
+        2 | 3 => {
+            // nearly aligned: one dominant component, the others 2^-j of it (j up to mant + 6: some vanish in |k|)
+            let i = t.below(3);
+            let mut v = [0.0; 3];
+            for j in 0..3 {
+                v[j] = if j == i {
+                    1.0
+                } else if t.chance(64) {
+                    0.0
+                } else {
+                    (2.0f64).powi(-(t.int(1, m + 6) as i32)) * (1.0 + t.unit_f64())
+                } * if t.bool() { -1.0 } else { 1.0 };
+            }
+            cx.label("direction: one dominant component");
+            v
+        }
+        _ => {
+            let mut v = [t.range_f64(-1.0, 1.0), t.range_f64(-1.0, 1.0), t.range_f64(-1.0, 1.0)];
+            if v.iter().map(|x| x * x).sum::<f64>() < 1e-4 {
+                v = [0.3, -0.5, 0.8];
+            }
+            cx.label("direction: random");
+            v
+        }
+    };
+    let ds: [S; 3] = [fcast(d[0]), fcast(d[1]), fcast(d[2])];
+    let d = v64(&ds);
+    let n = (d[0] * d[0] + d[1] * d[1] + d[2] * d[2]).sqrt();
+    (ds, [d[0] / n, d[1] / n, d[2] / n])
+}
+
+/// Tolerance factors (times eps of the domain). Derivation: an axis-aligned builder stores sin/cos of its argument
+/// (one libm call, < 1 ulp; the f32 reference is the f64 value, the f64 reference the same libm) -> 16.
+/// `rotation_3d`: normalised components carry <= 2 eps each, 1-c <= 1 eps absolute, three products and one sum
+/// -> < 10 eps per element; quaternion route: half-angle sin/cos, products of two components, doubled -> < 12 eps
+/// -> 64. Products with an operand add (n+1) eps per n-term dot product -> 4 * 64 relative to the operand's
+/// largest element.
+const KT: f64 = 16.0;
+const KR: f64 = 64.0;
+
+fn regime<S: Dom>(t: &mut Tape, cx: &mut Cx) -> CaseResult {
+    let lim = flim::<S>();
+    let eps = S::eps();
+    let (a, alab) = regime_angle::<S>(t);
+    cx.label(alab);
+    let a64 = a.f();
+    let (s, c) = (a64.sin(), a64.cos());
+    let sh = (a64 / 2.0).sin();
+    let oc = 2.0 * sh * sh;
+    let (dir, k) = regime_direction::<S>(t, cx);
+    let (ka, klab) = axis_exp::<S>(t);
+    cx.label(klab);
+    let pa = p2::<S>(ka);
+    let axis = [dir[0] * pa, dir[1] * pa, dir[2] * pa];
+    let kv = operand_exp::<S>(t);
+    let km = operand_exp::<S>(t);
+    cx.label(match kv.abs().max(km.abs()) {
+        0 => "operands x 1",
+        1..=12 => "operand scale up to 2^+-12",
+        _ => "operand scale beyond 2^+-12",
+    });
+    let (pv, pm) = (p2::<S>(kv), p2::<S>(km));
+    let v0: [S; 3] = vk::gen_vec(t, 9);
+    let v = [v0[0] * pv, v0[1] * pv, v0[2] * pv];
+    let m0: [[S; 4]; 4] = vk::gen_mat(t, 5);
+    let mut m = m0;
+    for r in m.iter_mut() {
+        for x in r.iter_mut() {
+            *x = *x * pm;
+        }
+    }
+    // a unit quaternion (to rounding) with small integer ratios
+    let q0i = gens::int_quat(t, 4);
+    let qn = (q0i.iter().map(|x| (x * x) as f64).sum::<f64>()).sqrt();
+    let q0 = Quaternion::<S> { x: fcast(q0i[1] as f64 / qn), y: fcast(q0i[2] as f64 / qn), z: fcast(q0i[3] as f64 / qn), w: fcast(q0i[0] as f64 / qn) };
+    let in_regime = alab != "ordinary angle" || ka.abs() > 10 || kv.abs() > 12 || km.abs() > 12;
+    cx.set_nontrivial(s != 0.0 && c != 0.0 && in_regime);
+    sample!(cx, "{} angle={:?} ({}) axis={:?} = dir {:?} * 2^{} (unit {:?}) v={:?} (x 2^{}) m x 2^{} q0={:?}", S::NAME, a, alab, axis, dir, ka, k, v, kv, km, q0);
+    let _ = lim;
+
+    let ax = vk::v3(&axis);
+    let rref = rodrigues_mat(&k, s, c, oc);
+    let sk = [s * k[0], s * k[1], s * k[2]];
+    // absolute tolerance for matrix elements (|elements| <= 1); the sine terms (rotation vector) relative to
+    // |sin| + (1 - cos): relative to |sin| for small angles and next to whole turns, absolute next to half turns
+    let (tol_t, tol_r) = (KT * eps, KR * eps);
+    let (tol_st, tol_sr) = (KT * eps * (s.abs() + oc), KR * eps * (s.abs() + oc));
+    let (z, o) = (0.0f64, 1.0f64);
+    let xref: M3 = [[o, z, z], [z, c, -s], [z, s, c]];
+    let yref: M3 = [[c, z, s], [z, o, z], [-s, z, c]];
+    let zref: M3 = [[c, -s, z], [s, c, z], [z, z, o]];
+    let e = [[o, z, z], [z, o, z], [z, z, o]];
+    let v3 = v64(&v);
+    let vmax = vk::vec_max(&v);
+    let mmax = vk::mat_max(&m);
+    let m4r = m64(&m);
+    let m3a = upper3(&m);
+    let m3r = m64(&m3a);
+    let m2a = [[m[0][0], m[0][1]], [m[1][0], m[1][1]]];
+    let m2r = m64(&m2a);
+    let q0r = quat_mat(&[q0.x.f(), q0.y.f(), q0.z.f(), q0.w.f()]);
+    let qarr = |q: Quaternion<S>| [q.x, q.y, q.z, q.w];
+
+    // one rotation matrix against its reference: elements absolutely, rotation vector relative to |sin|
+    macro_rules! rot3 {
+        ($got:expr, $want:expr, $axis:expr, $tol:expr, $tols:expr, $($what:tt)*) => {{
+            let g: M3 = $got;
+            want_ok!(near_mat(cx, &g, &$want, $tol), $($what)*);
+            want_ok!(near_vec(cx, &skew_part(&g), &$axis, $tols), "{} [rotation vector (R - R^T)/2 = sin(angle) * unit axis, relative to |sin| + (1 - cos)]", format!($($what)*));
+        }};
+    }
+    macro_rules! layout {
+        ($l:ident, $n:expr) => {{
+            // --- arbitrary axis: Mat3, Mat4, and every operand form of the axis
+            let r3 = $l::Mat3::<S>::rotation_3d(a, ax);
+            rot3!(m64(&r3.to_arr()), rref, sk, tol_r, tol_sr, "{} Mat3::rotation_3d(angle, axis) vs axis-angle definition for axis/|axis|", $n);
+            let r4 = $l::Mat4::<S>::rotation_3d(a, ax);
+            check!(cx, is_embedding(&r4.to_arr()), "{} Mat4::rotation_3d last row/column is not e4: {:?}", $n, r4);
+            rot3!(m64(&upper3(&r4.to_arr())), rref, sk, tol_r, tol_sr, "{} Mat4::rotation_3d(angle, axis) upper-left block vs axis-angle definition", $n);
+            let junk = Vec4 { x: axis[0], y: axis[1], z: axis[2], w: (S::i(7) + v0[0]) * pa };
+            check_eq!(cx, $l::Mat3::<S>::rotation_3d(a, junk).to_arr(), r3.to_arr(), "{} Mat3::rotation_3d(axis as Vec4 with w != 0) == (axis as Vec3)", $n);
+            check_eq!(cx, $l::Mat4::<S>::rotation_3d(a, junk).to_arr(), r4.to_arr(), "{} Mat4::rotation_3d(axis as Vec4 with w != 0) == (axis as Vec3)", $n);
+            check_eq!(cx, $l::Mat3::<S>::rotation_3d(a, axis).to_arr(), r3.to_arr(), "{} Mat3::rotation_3d(axis as [T; 3]) == (axis as Vec3)", $n);
+            check_eq!(cx, $l::Mat4::<S>::rotation_3d(a, (axis[0], axis[1], axis[2])).to_arr(), r4.to_arr(), "{} Mat4::rotation_3d(axis as tuple) == (axis as Vec3)", $n);
+            // --- axis-aligned builders
+            for (nm, want, sax, g3, g4) in [
+                ("x", &xref, [s, z, z], $l::Mat3::<S>::rotation_x(a).to_arr(), $l::Mat4::<S>::rotation_x(a).to_arr()),
+                ("y", &yref, [z, s, z], $l::Mat3::<S>::rotation_y(a).to_arr(), $l::Mat4::<S>::rotation_y(a).to_arr()),
+                ("z", &zref, [z, z, s], $l::Mat3::<S>::rotation_z(a).to_arr(), $l::Mat4::<S>::rotation_z(a).to_arr()),
+            ] {
+                rot3!(m64(&g3), *want, sax, tol_t, tol_st, "{} Mat3::rotation_{}(angle) vs sin/cos of the same float", $n, nm);
+                check!(cx, is_embedding(&g4), "{} Mat4::rotation_{} last row/column is not e4: {:?}", $n, nm, g4);
+                rot3!(m64(&upper3(&g4)), *want, sax, tol_t, tol_st, "{} Mat4::rotation_{}(angle) vs sin/cos of the same float", $n, nm);
+            }
+            let r2 = m64(&$l::Mat2::<S>::rotation_z(a).to_arr());
+            want_ok!(near_mat(cx, &r2, &[[c, -s], [s, c]], tol_t), "{} Mat2::rotation_z(angle) vs sin/cos of the same float", $n);
+            want_ok!(near_vec(cx, &[r2[1][0], -r2[0][1]], &[s, s], tol_st), "{} Mat2::rotation_z(angle) sine elements relative to |sin|", $n);
+            // --- matrix from the quaternion
+            let q = Quaternion::<S>::rotation_3d(a, ax);
+            rot3!(m64(&$l::Mat3::<S>::from(q).to_arr()), rref, sk, tol_r, tol_sr, "{} Mat3::from(Quaternion::rotation_3d(angle, axis)) vs axis-angle definition", $n);
+            let q4 = $l::Mat4::<S>::from(q).to_arr();
+            check!(cx, is_embedding(&q4), "{} Mat4::from(Quaternion) last row/column is not e4: {:?}", $n, q4);
+            rot3!(m64(&upper3(&q4)), rref, sk, tol_r, tol_sr, "{} Mat4::from(Quaternion::rotation_3d(angle, axis)) vs axis-angle definition", $n);
+            // --- chained / in-place forms on an operand of length scale 2^km: rotation * m, relative to |m|
+            let tol_m = 4.0 * KR * eps * mmax;
+            let m4 = $l::Mat4::<S>::from_arr(&m);
+            let m3 = $l::Mat3::<S>::from_arr(&m3a);
+            let m2 = $l::Mat2::<S>::from_arr(&m2a);
+            want_ok!(near_mat(cx, &m64(&m4.rotated_3d(a, ax).to_arr()), &rf::matmul(&embed64(&rref), &m4r), tol_m), "{} Mat4::rotated_3d = rotation_3d * m", $n);
+            want_ok!(near_mat(cx, &m64(&m3.rotated_3d(a, ax).to_arr()), &rf::matmul(&rref, &m3r), tol_m), "{} Mat3::rotated_3d = rotation_3d * m", $n);
+            want_ok!(near_mat(cx, &m64(&m4.rotated_x(a).to_arr()), &rf::matmul(&embed64(&xref), &m4r), tol_m), "{} Mat4::rotated_x = rotation_x * m", $n);
+            want_ok!(near_mat(cx, &m64(&m4.rotated_y(a).to_arr()), &rf::matmul(&embed64(&yref), &m4r), tol_m), "{} Mat4::rotated_y = rotation_y * m", $n);
+            want_ok!(near_mat(cx, &m64(&m4.rotated_z(a).to_arr()), &rf::matmul(&embed64(&zref), &m4r), tol_m), "{} Mat4::rotated_z = rotation_z * m", $n);
+            want_ok!(near_mat(cx, &m64(&m3.rotated_x(a).to_arr()), &rf::matmul(&xref, &m3r), tol_m), "{} Mat3::rotated_x = rotation_x * m", $n);
+            want_ok!(near_mat(cx, &m64(&m3.rotated_y(a).to_arr()), &rf::matmul(&yref, &m3r), tol_m), "{} Mat3::rotated_y = rotation_y * m", $n);
+            want_ok!(near_mat(cx, &m64(&m3.rotated_z(a).to_arr()), &rf::matmul(&zref, &m3r), tol_m), "{} Mat3::rotated_z = rotation_z * m", $n);
+            want_ok!(near_mat(cx, &m64(&m2.rotated_z(a).to_arr()), &rf::matmul(&[[c, -s], [s, c]], &m2r), tol_m), "{} Mat2::rotated_z = rotation_z * m", $n);
+            // rotating the (scaled) identity shows the sine elements themselves
+            let i3 = $l::Mat3::<S>::from_arr(&[[pm, S::zero(), S::zero()], [S::zero(), pm, S::zero()], [S::zero(), S::zero(), pm]]);
+            let pm64 = pm.f();
+            let unscale = |g: [[S; 3]; 3]| {
+                let mut r = m64(&g);
+                for row in r.iter_mut() {
+                    for x in row.iter_mut() {
+                        *x /= pm64;
+                    }
+                }
+                r
+            };
+            rot3!(unscale(i3.rotated_3d(a, ax).to_arr()), rref, sk, tol_r, tol_sr, "{} (2^k I).rotated_3d(angle, axis) / 2^k vs axis-angle definition", $n);
+            rot3!(unscale(i3.rotated_x(a).to_arr()), xref, [s, z, z], tol_t, tol_st, "{} (2^k I).rotated_x(angle) / 2^k", $n);
+            rot3!(unscale(i3.rotated_y(a).to_arr()), yref, [z, s, z], tol_t, tol_st, "{} (2^k I).rotated_y(angle) / 2^k", $n);
+            rot3!(unscale(i3.rotated_z(a).to_arr()), zref, [z, z, s], tol_t, tol_st, "{} (2^k I).rotated_z(angle) / 2^k", $n);
+            inplace2!(cx, m4, rotate_3d, rotated_3d, a, ax, "Mat4::rotate_3d == rotated_3d");
+            inplace2!(cx, m3, rotate_3d, rotated_3d, a, ax, "Mat3::rotate_3d == rotated_3d");
+            inplace1!(cx, m4, rotate_x, rotated_x, a, "Mat4::rotate_x == rotated_x");
+            inplace1!(cx, m4, rotate_y, rotated_y, a, "Mat4::rotate_y == rotated_y");
+            inplace1!(cx, m4, rotate_z, rotated_z, a, "Mat4::rotate_z == rotated_z");
+            inplace1!(cx, m3, rotate_x, rotated_x, a, "Mat3::rotate_x == rotated_x");
+            inplace1!(cx, m3, rotate_y, rotated_y, a, "Mat3::rotate_y == rotated_y");
+            inplace1!(cx, m3, rotate_z, rotated_z, a, "Mat3::rotate_z == rotated_z");
+            inplace1!(cx, m2, rotate_z, rotated_z, a, "Mat2::rotate_z == rotated_z");
+            // vek's matrix * vector on a vector of length scale 2^kv, relative to |v|
+            want_ok!(near_vec(cx, &v64(&vk::a3(&(r3 * vk::v3(&v)))), &rf::matvec(&rref, &v3), 4.0 * KR * eps * vmax), "{} Mat3::rotation_3d * v", $n);
+            want_ok!(near_vec(cx, &v64(&vk::a2(&($l::Mat2::<S>::rotation_z(a) * vk::v2(&[v[0], v[1]])))), &[c * v3[0] - s * v3[1], s * v3[0] + c * v3[1]], 4.0 * KT * eps * vmax), "{} Mat2::rotation_z * v", $n);
+        }};
+    }
+    layout!(rm, "row-major");
+    layout!(cm, "col-major");
+
+    // --- quaternion builders (layout independent): unit norm, operand forms, axis-aligned builders
+    let q = Quaternion::<S>::rotation_3d(a, ax);
+    let qq = v64(&qarr(q));
+    check!(cx, near(cx, qq.iter().map(|x| x * x).sum::<f64>(), 1.0, tol_r), "Quaternion::rotation_3d is not a unit quaternion: {:?}", q);
+    let junk = Vec4 { x: axis[0], y: axis[1], z: axis[2], w: (S::i(7) + v0[0]) * pa };
+    check_eq!(cx, qarr(Quaternion::<S>::rotation_3d(a, junk)), qarr(q), "Quaternion::rotation_3d(axis as Vec4 with w != 0) == (axis as Vec3)");
+    check_eq!(cx, qarr(Quaternion::<S>::rotation_3d(a, axis)), qarr(q), "Quaternion::rotation_3d(axis as [T; 3]) == (axis as Vec3)");
+    for (nm, want, sax, qa) in [
+        ("x", &xref, [s, z, z], Quaternion::<S>::rotation_x(a)),
+        ("y", &yref, [z, s, z], Quaternion::<S>::rotation_y(a)),
+        ("z", &zref, [z, z, s], Quaternion::<S>::rotation_z(a)),
+    ] {
+        rot3!(m64(&cm::Mat3::<S>::from(qa).to_arr()), *want, sax, tol_r, tol_sr, "Mat3::from(Quaternion::rotation_{}(angle))", nm);
+    }
+    // chained / in-place forms: from the identity they show the rotation itself, from q0 the product R * R(q0)
+    let id = Quaternion::<S>::identity();
+    rot3!(m64(&cm::Mat3::<S>::from(id.rotated_3d(a, ax)).to_arr()), rref, sk, tol_r, tol_sr, "Mat3::from(identity.rotated_3d(angle, axis))");
+    rot3!(m64(&cm::Mat3::<S>::from(id.rotated_x(a)).to_arr()), xref, [s, z, z], tol_r, tol_sr, "Mat3::from(identity.rotated_x(angle))");
+    rot3!(m64(&cm::Mat3::<S>::from(id.rotated_y(a)).to_arr()), yref, [z, s, z], tol_r, tol_sr, "Mat3::from(identity.rotated_y(angle))");
+    rot3!(m64(&cm::Mat3::<S>::from(id.rotated_z(a)).to_arr()), zref, [z, z, s], tol_r, tol_sr, "Mat3::from(identity.rotated_z(angle))");
+    let tol_q = 4.0 * KR * eps;
+    want_ok!(near_mat(cx, &m64(&cm::Mat3::<S>::from(q0.rotated_3d(a, ax)).to_arr()), &rf::matmul(&rref, &q0r), tol_q), "Mat3::from(q0.rotated_3d(angle, axis)) = R(angle, axis) * R(q0)");
+    want_ok!(near_mat(cx, &m64(&cm::Mat3::<S>::from(q0.rotated_x(a)).to_arr()), &rf::matmul(&xref, &q0r), tol_q), "Mat3::from(q0.rotated_x(angle)) = R_x * R(q0)");
+    want_ok!(near_mat(cx, &m64(&cm::Mat3::<S>::from(q0.rotated_y(a)).to_arr()), &rf::matmul(&yref, &q0r), tol_q), "Mat3::from(q0.rotated_y(angle)) = R_y * R(q0)");
+    want_ok!(near_mat(cx, &m64(&cm::Mat3::<S>::from(q0.rotated_z(a)).to_arr()), &rf::matmul(&zref, &q0r), tol_q), "Mat3::from(q0.rotated_z(angle)) = R_z * R(q0)");
+    {
+        let mut x = q0;
+        x.rotate_3d(a, ax);
+        check_eq!(cx, qarr(x), qarr(q0.rotated_3d(a, ax)), "Quaternion::rotate_3d == rotated_3d");
+        let mut x = q0;
+        x.rotate_x(a);
+        check_eq!(cx, qarr(x), qarr(q0.rotated_x(a)), "Quaternion::rotate_x == rotated_x");
+        let mut x = q0;
+        x.rotate_y(a);
+        check_eq!(cx, qarr(x), qarr(q0.rotated_y(a)), "Quaternion::rotate_y == rotated_y");
+        let mut x = q0;
+        x.rotate_z(a);
+        check_eq!(cx, qarr(x), qarr(q0.rotated_z(a)), "Quaternion::rotate_z == rotated_z");
+    }
+    // the quaternion acting on a vector of length scale 2^kv, relative to |v|
+    want_ok!(near_vec(cx, &v64(&vk::a3(&(q * vk::v3(&v)))), &rf::matvec(&rref, &v3), 4.0 * KR * eps * vmax), "Quaternion::rotation_3d(angle, axis) * v");
+
+    // --- Vec2 rotation on vectors of length scale 2^kv
+    let v2 = [v[0], v[1]];
+    let want2 = [c * v3[0] - s * v3[1], s * v3[0] + c * v3[1]];
+    want_ok!(near_vec(cx, &v64(&vk::a2(&vk::v2(&v2).rotated_z(a))), &want2, 4.0 * KT * eps * vmax), "Vec2::rotated_z(angle) vs sin/cos of the same float");
+    let mut vv = vk::v2(&v2);
+    vv.rotate_z(a);
+    check_eq!(cx, vk::a2(&vv), vk::a2(&vk::v2(&v2).rotated_z(a)), "Vec2::rotate_z == rotated_z");
+    // images of the scaled basis vectors: (c, s) 2^kv and (-s, c) 2^kv, the sine component relative to |sin|
+    let p64 = pv.f();
+    let ex = v64(&vk::a2(&Vec2 { x: pv, y: S::zero() }.rotated_z(a)));
+    let ey = v64(&vk::a2(&Vec2 { x: S::zero(), y: pv }.rotated_z(a)));
+    check!(cx, near(cx, ex[0], c * p64, tol_t * p64) && near(cx, ex[1], s * p64, tol_st * p64), "Vec2(2^k, 0).rotated_z(angle): got {:?}, want (cos, sin) 2^k = {:?}", ex, [c * p64, s * p64]);
+    check!(cx, near(cx, ey[0], -s * p64, tol_st * p64) && near(cx, ey[1], c * p64, tol_t * p64), "Vec2(0, 2^k).rotated_z(angle): got {:?}, want (-sin, cos) 2^k = {:?}", ey, [-s * p64, c * p64]);
+    let _ = e;
+    Ok(())
+}
+
 /// Additivity for a common axis, and quaternion chained variants.
 fn additive<S: Dom>(t: &mut Tape, cx: &mut Cx) -> CaseResult {
-    let a = S::angle(t);
-    let b = S::angle(t);
-    let ab = match S::angle_sum(a, b) {
+    let (a, b, ab) = match gen_angle_pair::<S>(t, cx) {
         Some(x) => x,
         None => discard!("angle-sum"),
     };
@@ -266,13 +769,17 @@ pub fn property() -> Property {
     let a = "rotation_3d / rotation_x/y/z (Mat2, Mat3, Mat4), quaternion and Vec2 rotation for a generated angle and non-unit axis: orthogonal, det +1, fixes the axis, equals the axis-angle definition on a random vector, handedness anchors, axis scaling law, Mat3 = block of Mat4, quaternion-derived matrix equal, chained/in-place variants pre-multiply";
     tape!("rotations-rows-rat", a, 96, 20_000, 500_000, rot_rows::<Rat>);
     tape!("rotations-cols-rat", a, 96, 20_000, 500_000, rot_cols::<Rat>);
-    tape!("rotations-rows-f64", a, 192, 20_000, 500_000, rot_rows::<f64>);
-    tape!("rotations-cols-f64", a, 192, 20_000, 500_000, rot_cols::<f64>);
-    tape!("rotations-rows-f32", a, 192, 10_000, 250_000, rot_rows::<f32>);
-    tape!("rotations-cols-f32", a, 192, 10_000, 250_000, rot_cols::<f32>);
+    tape!("rotations-rows-f64", a, 256, 20_000, 500_000, rot_rows::<f64>);
+    tape!("rotations-cols-f64", a, 256, 20_000, 500_000, rot_cols::<f64>);
+    tape!("rotations-rows-f32", a, 256, 10_000, 250_000, rot_rows::<f32>);
+    tape!("rotations-cols-f32", a, 256, 10_000, 250_000, rot_cols::<f32>);
+    let r = "float regimes, every builder against a reference evaluated in f64 from the same float arguments: axis = direction (integer / coordinate axis / one dominant component / random) times an exact power of two from 2^-48..2^48 (f32), 2^-480..2^480 (f64) incl. lengths around eps and sqrt(eps); angle zero / small (to 2^-40, 2^-200) / next to a multiple of pi/2 / many turns (to 2^30, 2^60 rad); operands (vector, matrix) times an exact power of two. Matrix elements to 16 eps (axis-aligned) / 64 eps (arbitrary axis, quaternion), the rotation vector (R - R^T)/2 relative to |sin angle|, products relative to the operand's magnitude; axis given as Vec3 / Vec4 (w ignored) / array / tuple; Mat2/3/4 both layouts, Quaternion rotation_*/rotated_*/rotate_*, Vec2::rotated_z/rotate_z";
+    tape!("regimes-f64", r, 320, 50_000, 1_500_000, regime::<f64>);
+    tape!("regimes-f32", r, 320, 50_000, 1_500_000, regime::<f32>);
     let b = "rotations about a common axis compose additively (Mat2/3/4, both layouts, axis-aligned and arbitrary axis); quaternion chained/in-place variants equal the Hamilton product with the constructor; q*Vec4 keeps w";
     tape!("additive-rat", b, 48, 20_000, 500_000, additive::<Rat>);
-    tape!("additive-f64", b, 96, 20_000, 500_000, additive::<f64>);
+    tape!("additive-f64", b, 128, 20_000, 500_000, additive::<f64>);
+    tape!("additive-f32", b, 128, 20_000, 500_000, additive::<f32>);
     Property {
         id: "C04",
         rule: "angles: registered rational-trigonometry angles (tan(theta/4) rational, so sin/cos of theta and theta/2 are exact) for Rat, random and special angles in (-2pi,2pi) for floats; axes: Pythagorean integer vectors times a rational factor of either sign (exact unit direction known), plus arbitrary float axes of length 1e-3..1e3; non-trivial = sin != 0, cos not in {0,+-1}, axis with >= 2 non-zero components; distinct = distinct consumed tape prefix",
